@@ -22,7 +22,7 @@ import shutil
 from . import core
 
 SPEC = core.SPEC / "data"
-ACTIONS = ["DoObs", "DoDose", "DoOther", "DoReset", "DoResetDose", "Close", "ExpandOne", "SkipExpand", "StartWalk",
+ACTIONS = ["DoObs", ("DoMissing", "AddMissing"), "DoDose", "DoOther", "DoReset", "DoResetDose", "Close", "ExpandOne", "SkipExpand", "StartWalk",
            "Walk", "WalkTie", "StartXWalk", "XWalk", "XWalkTie", "Finish"]
 REFUSALS = ("ValueError", "NotImplementedError")   # documented kinds of refusal: counted, never judged
 
@@ -252,6 +252,7 @@ def check_dataset(arg):
         "time_recurs_after_reset": bool(case["recurs"] or case["xrecurs"]),
         "has_reset": any(r["evid"] >= 3 for r in case["data"]),
         "has_evid4": any(r["evid"] == 4 for r in case["data"]),
+        "has_missing_observation_record": any(r["evid"] == 0 and r["mdv"] == 1 for r in case["data"]),
         "nondose_follows_dose_at_same_time": _nondose_follows_dose(case),
     }
     events = []  # (record, what)
@@ -571,7 +572,8 @@ def main(tier: str, seed: int) -> int:
     v = core.Verdict("C14", tier, seed)
     v.assumptions = [
         "datasets carry numeric times (TIME/DATE translation is not part of this specification)",
-        "dose records have AMT > 0 and EVID in {1, 4}; observation records EVID = 0 = MDV; the data are consistent",
+        "dose records have AMT > 0 and EVID in {1, 4}; observation records EVID = 0 = MDV; a record with EVID = 0 and MDV = 1 (missing observation, "
+        "only with both columns) is not an observation; otherwise MDV = (EVID != 0)",
         "situations the documentation leaves open are not judged: ties with the first dose of an individual or with a "
         "steady-state dose (either interval admitted), several doses at one time point, EVID=2 records at a dose time, "
         "time after dose before any dose or after a reset without dose (only TAD >= 0 is required), non-contiguous ids "
